@@ -187,7 +187,7 @@ func drawCase(rt *rapid.T, st *stats.Collector) *tcase {
 	o.withCh = rapid.IntRange(0, 3).Draw(rt, "withCh") != 0
 	if o.withCh && kf.Listed(kfSharedIdx) && rapid.IntRange(0, 3).Draw(rt, "ch-keep") != 0 {
 		o.withCh = false
-		st.Excluded("fk-cascade-child-with-secondary-index(C15-shared-index-rows)")
+		st.Excluded("fk-cascade-child-with-secondary-index(C18-stale-index-after-failed-stmt)")
 	}
 	o.withCr = rapid.Bool().Draw(rt, "withCr")
 	o.inTx = rapid.IntRange(0, 2).Draw(rt, "inTx") == 0
@@ -726,7 +726,7 @@ func (tc *tcase) describe() string {
 const (
 	kfTrigWrites = "C15-trigger-writes-survive" // rows written by trigger bodies survive the failed statement (only additions to audit)
 	kfAfterTrig  = "C15-after-trigger-error"    // error raised by an AFTER trigger: the statement's own row changes survive
-	kfSharedIdx  = "C15-shared-index-rows"      // full scans unchanged, only secondary-index lookups changed
+	kfSharedIdx  = "C18-stale-index-after-failed-stmt"      // full scans unchanged, only secondary-index lookups changed
 )
 
 // judgeNoEffect decides a failed statement: every probe must be unchanged. Deviations that
